@@ -717,3 +717,55 @@ func isPtr(t types.Type) bool {
 	_, ok := t.Underlying().(*types.Pointer)
 	return ok
 }
+
+// boolPhiCuts extends a set of qualifying branch edges to tests of a boolean
+// that merges a short-circuit expression (x := a && b; if x {...}): a side of
+// `if x` qualifies when, for every way x can have that value, the fact is
+// established — the part that decided x early was left through a qualifying
+// edge, or the last part evaluated qualifies on that side itself.
+func boolPhiCuts(fn *ssa.Function, cut map[[2]int]bool, classify func(cond ssa.Value) (onTrue, onFalse bool)) {
+	for _, iff := range ssau.Ifs(fn) {
+		cond, neg := iff.Cond, false
+		if u, ok := cond.(*ssa.UnOp); ok && u.Op == token.NOT {
+			cond, neg = u.X, true
+		}
+		phi, ok := cond.(*ssa.Phi)
+		if !ok || len(phi.Edges) == 0 {
+			continue
+		}
+		for side := 0; side < 2; side++ {
+			want := side == 0 // the value of the phi on this side of the test
+			if neg {
+				want = !want
+			}
+			all := true
+			for i, e := range phi.Edges {
+				pred := phi.Block().Preds[i]
+				if k, isC := e.(*ssa.Const); isC && k.Value != nil {
+					val := k.Value.String() == "true"
+					if val != want {
+						continue // this way of getting here does not take this side
+					}
+					// decided early in pred: the edge pred -> phi block must qualify
+					q := false
+					for si, sc := range pred.Succs {
+						if sc == phi.Block() && cut[[2]int{pred.Index, si}] {
+							q = true
+						}
+					}
+					if !q {
+						all = false
+					}
+					continue
+				}
+				t, f0 := classify(e)
+				if (want && !t) || (!want && !f0) {
+					all = false
+				}
+			}
+			if all {
+				cut[[2]int{iff.Block().Index, side}] = true
+			}
+		}
+	}
+}
